@@ -371,6 +371,13 @@ func (gen *filterGen) Type(typ types.Type) string {
 		return gen.Struct(t)
 	case *types.TypeParam:
 		return gen.TypeParam(t)
+	case *types.Basic:
+		// byte and rune are aliases of uint8 and int32: identical types must
+		// produce identical filter names whichever spelling the source used.
+		if k := t.Kind(); k >= 0 && int(k) < len(types.Typ) && types.Typ[k] != nil {
+			return types.Typ[k].String()
+		}
+		return t.String()
 	default:
 		// Anything else, like basics, just stringify normally.
 		return t.String()
